@@ -107,8 +107,9 @@ pub fn encode(s: &Scn) -> String {
 }
 
 fn to_link(name: &str, m: &[(String, u8)], p: &[(String, u8)]) -> LinkMetadata {
+    // (a path the validating constructor turns down is entered by conversion, as it is)
     let mk = |a: &[(String, u8)]| -> BTreeMap<VirtualTargetPath, TargetDescription> {
-        a.iter().map(|(k, v)| (VirtualTargetPath::new(k.clone()).unwrap(), digest(*v))).collect()
+        a.iter().map(|(k, v)| (VirtualTargetPath::new(k.clone()).unwrap_or_else(|_| VirtualTargetPath::from(k.as_str())), digest(*v))).collect()
     };
     LinkMetadataBuilder::new().name(name.to_string()).materials(mk(m)).products(mk(p)).build().unwrap()
 }
@@ -124,6 +125,40 @@ pub fn run_impl(s: &Scn) -> &'static str {
         Err(()) => "panic",
         Ok(Ok(())) => "ok",
         Ok(Err(_)) => "err",
+    }
+}
+
+/// a scenario of well-typed but hostile rules and artifact names: empty and root prefixes, patterns the
+/// pattern reader rejects, paths that clean to `/`, `.`, `..` or nothing
+pub fn gen_hostile_scn(r: &mut Rng) -> Scn {
+    let pats = ["*", "foo", "/", "", "[", "a**b", "//", "/*", "sub/*", "."];
+    let pres: [Option<&str>; 8] = [None, Some(""), Some("/"), Some("sub"), Some("."), Some(".."), Some("sub/"), Some("//")];
+    let paths = ["/", "//", "/.", "/a/..", "", ".", " ", "..", "foo", "/foo", "sub/foo", "./foo", "a/../..", "sub/", "sub", "/sub/foo"];
+    let vp = |s: &str| VirtualTargetPath::new(s.to_string()).unwrap_or_else(|_| VirtualTargetPath::from(s));
+    let mut rule = |r: &mut Rng| -> ArtifactRule {
+        let p = vp(*r.pick(&pats));
+        match r.below(9) {
+            0 => ArtifactRule::Create(p),
+            1 => ArtifactRule::Delete(p),
+            2 => ArtifactRule::Modify(p),
+            3 => ArtifactRule::Allow(p),
+            4 => ArtifactRule::Require(p),
+            5 => ArtifactRule::Disallow(p),
+            _ => ArtifactRule::Match {
+                pattern: p,
+                in_src: r.pick(&pres).map(String::from),
+                with: if r.chance(1, 2) { Artifact::Materials } else { Artifact::Products },
+                in_dst: r.pick(&pres).map(String::from),
+                from: r.pick(&["other", "it", "absent"]).to_string(),
+            },
+        }
+    };
+    let mut arts = |r: &mut Rng| -> Vec<(String, u8)> { (0..r.below(4)).map(|_| ((*r.pick(&paths)).to_string(), *r.pick(DIGEST_POOL))).collect() };
+    Scn {
+        item: "it".into(),
+        mats: (0..r.below(4)).map(|_| rule(r)).collect(),
+        prods: (0..r.below(4)).map(|_| rule(r)).collect(),
+        links: vec![("it".into(), arts(r), arts(r)), ("other".into(), arts(r), arts(r))],
     }
 }
 
@@ -157,7 +192,7 @@ const UNIVERSE4: &[&str] = &["[a-f]oo", "foo", "f?o", "sub/[a-f]oo"];
 fn all_rules() -> Vec<ArtifactRule> {
     let mut v = vec![];
     for p in PATTERNS {
-        let vp = VirtualTargetPath::new(p.to_string()).unwrap();
+        let vp = VirtualTargetPath::new(p.to_string()).unwrap_or_else(|_| VirtualTargetPath::from(*p));
         v.push(ArtifactRule::Create(vp.clone()));
         v.push(ArtifactRule::Delete(vp.clone()));
         v.push(ArtifactRule::Modify(vp.clone()));
@@ -233,7 +268,7 @@ pub fn run(cfg: &Cfg) {
             };
             sink.op(&format!("glob {} {}", hexs(p), hexs(s)), &ans, true);
             // the repo's wrapper must agree with the library it wraps
-            let vp = VirtualTargetPath::new(s.to_string()).unwrap();
+            let vp = VirtualTargetPath::new(s.to_string()).unwrap_or_else(|_| VirtualTargetPath::from(s));
             let w = match hooks::path_matches(&vp, p) {
                 Ok(b) => b.to_string(),
                 Err(_) => "none".into(),
@@ -274,7 +309,7 @@ pub fn run(cfg: &Cfg) {
     }
 
     // ---- corpus: the two probed defects and neighbours
-    let vp = |s: &str| VirtualTargetPath::new(s.to_string()).unwrap();
+    let vp = |s: &str| VirtualTargetPath::new(s.to_string()).unwrap_or_else(|_| VirtualTargetPath::from(s));
     let m = |p: &str, s: Option<&str>, w: Artifact, d: Option<&str>, f: &str| ArtifactRule::Match {
         pattern: vp(p),
         in_src: s.map(|x| x.to_string()),
@@ -336,6 +371,46 @@ pub fn run(cfg: &Cfg) {
         }
     }
     sink.note(&format!("systematic scope: {} scenarios = every single rule over kinds x patterns {:?} x optional prefixes {:?} x MATERIALS/PRODUCTS x present/absent step, followed by DISALLOW *, over artifact universes drawn from {:?} and {:?}", scope, PATTERNS, PREFIXES, UNIVERSE, UNIVERSE2));
+
+    // ---- systematic scope 2: material rules and product rules of one item together - one material rule,
+    //      then two product rules, over artifacts that are materials *and* products of the item
+    //      (unchanged, modified, deleted, created): each of the two queues shrinks by its own rules only
+    {
+        let mut small: Vec<ArtifactRule> = vec![];
+        for p in ["*", "foo"] {
+            let v = vp(p);
+            small.extend([ArtifactRule::Create(v.clone()), ArtifactRule::Delete(v.clone()), ArtifactRule::Modify(v.clone()), ArtifactRule::Allow(v.clone()),
+                ArtifactRule::Require(v.clone()), ArtifactRule::Disallow(v.clone())]);
+            small.push(m(p, None, Artifact::Materials, None, "other"));
+            small.push(m(p, None, Artifact::Products, None, "other"));
+        }
+        let configs: Vec<(Vec<(String, u8)>, Vec<(String, u8)>)> = vec![
+            (vec![("foo".into(), 1), ("bar".into(), 1)], vec![("foo".into(), 1), ("bar".into(), 1)]),
+            (vec![("foo".into(), 1), ("bar".into(), 1)], vec![("foo".into(), 2), ("new".into(), 1)]),
+        ];
+        let mut scope2 = 0u64;
+        for (ci, (im, ip)) in configs.iter().enumerate() {
+            for a in &small {
+                for b in &small {
+                    for c in &small {
+                        // (the quick tier takes every third combination of each configuration)
+                        scope2 += 1;
+                        if !cfg.thorough && (scope2 + ci as u64) % 3 != 0 {
+                            continue;
+                        }
+                        let s = Scn {
+                            item: "it".into(),
+                            mats: vec![a.clone()],
+                            prods: vec![b.clone(), c.clone()],
+                            links: vec![("it".into(), im.clone(), ip.clone()), ("other".into(), vec![("foo".into(), 1), ("bar".into(), 1)], vec![("foo".into(), 1), ("bar".into(), 1)])],
+                        };
+                        case(&mut sink, &mut model, &s, "scope2");
+                    }
+                }
+            }
+        }
+        sink.note(&format!("systematic scope 2: {} scenarios = one material rule x two product rules over 16 rules (7 kinds x patterns *, foo; MATCH against materials / products of another step) x 2 artifact configurations (unchanged; modified + deleted + created)", scope2));
+    }
 
     // ---- random rule lists (length 0..5), normalized and not
     let n = if cfg.thorough { 60_000 } else { 6_000 };
